@@ -16,7 +16,21 @@ var propRules = map[string][]ruleSpec{
 	},
 }
 
+var contractBase = []string{
+	"contract table for gorgonia.org/tensor, protobuf-go and the standard library (checker/contracts.go): which calls write header/data of which operand, which results alias which operand; an external symbol without a contract that receives a non-owned reference makes the check undecided",
+	"go/types, go/ssa (with generic instantiation) and the CHA/VTA call graph model the program faithfully",
+	"gorgonia and protobuf-go internals are not analysed (pools are sync.Pool, generated getters are reads)",
+}
+
 var propDocs = map[string]propDoc{
+	"C02": {
+		Explanation: "Interprocedural origin/effect analysis (E2) over every hand-written library function (generic instances included): each SSA value carries the set of non-fresh origins (Borrowed(Run.inputs), Borrowed(op.inputs), Weights, Proto, Global(g)) x level (container, tensor header, element data) that may reach it; propagation through phi/field cells/containers/closures/calls to a fixpoint; gorgonia calls through a closed contract table. R3: every mutation site (Reshape/T/SetAt/Zero/Memset, arithmetic with WithReuse/UseUnsafe/WithIncr, element stores through Shape()/Data() slices, append/copy/sort/map updates, field stores on borrowed objects) must write storage with an empty origin set at the written level. R1: no package-level variable is stored to or written through outside package initialisers; the library has no goroutines/locks/unsafe. Positive controls (in-place Reshape, store through Shape(), WithReuse, UseUnsafe, mutation through a view, mutation two calls deep, memoising map) are analysed on every run and must be reported. NOT decided: bit-for-bit equality of results (follows from purity plus gorgonia's determinism, which is assumed); outputs that alias inputs or weights (Concat of one input, Constant) are not mutations by Run.",
+		Assumptions: contractBase,
+	},
+	"C17": {
+		Explanation: "Race freedom as an effect property: concurrent Runs on one Model share only the weight tensors (Model.parameters), the protobuf (Model.mp and everything reachable from it, including attribute slices wrapped without copying) and package variables. The same origin/effect analysis as C02, restricted to those shared roots: no reachable mutation site may write storage originating from Weights, Proto or a Global; no package-level variable is written after initialisation; no go statement, sync, sync/atomic or unsafe import in hand-written library files (if one appears the claim is withdrawn as undecided). With no write to shared storage there is no conflicting access pair in library code, for every schedule. NOT decided: gorgonia's and protobuf-go's internals.",
+		Assumptions: contractBase,
+	},
 	"C15": {
 		Explanation: "Static table evaluation over every registered operator (exhaustive): T1 arity bounds 0<=min<=max evaluated from the getter bodies; T2 len(constraints)>=max and rows non-empty (otherwise the generic gate indexes out of range); T3 ValidateInputs delegates exactly once to the generic gate with (receiver, inputs) and only adds error returns; T4 every constant index into inputs in Apply and helpers is < max; T5 every use of an optional input other than a nil test is dominated by its non-nil edge; T6 Concat's dynamic arity is established from len(inputs) before the delegate call; T7 the generic gate's stage order, counter semantics (success iff min<=n<=max, pad length = max), nil-only padding, same-index dtype lookup; T8 dtypes the property statements require are admitted; R2 registry completeness against the 55 pinned names and against the implementing types, constructor freshness (new heap value per lookup, no shared package state), getter hit/miss paths (miss => error wrapping ErrUnsupportedOperator). NOT decided: behaviour when nil is supplied at a required position; that gorgonia's Dtype() reports the element type.",
 		Assumptions: []string{"go/types and go/ssa model the program faithfully", "package-level Min*/Max* values are never reassigned (checked by R1 under C01/C02/C17)", "tensor.Dtype values named in constraints are gorgonia's package variables"},
